@@ -74,3 +74,4 @@ pub mod u_selector;
 pub mod u_builder;
 pub mod u_builder_gen;
 pub mod u_chan;
+pub mod u_phase;
